@@ -128,6 +128,10 @@ def run(case):
     arg = [tuple, list, np.array, lambda b: tuple(np.int64(x) if float(x).is_integer() else x for x in b)][case["wseed"] % 4](bins)
     if form == "quantity":
         arg = np.array(bins) * u.pix
+        if case["wseed"] % 3 == 1:
+            # the same number of pixels in another unit that converts to pixels (2-pixel "superpixels", decapixels)
+            big = u.def_unit("superpix", 2 * u.pix) if case["wseed"] % 2 else u.dapix
+            arg = arg.to(big)
     elif form == "badunit":
         arg = np.array(bins) * u.m
     hm = {"all": np.all, "any": np.any, "none": None}[case["handle"]]
